@@ -840,7 +840,7 @@ Proof.
   repeat split. destruct (_ =? 0); reflexivity.
 Qed.
 
-Lemma aligned_frame_borrowed t q fa xs : slice_ok t xs = true -> fa mod e_align t = 0 ->
+Lemma aligned_frame_borrowed t (q : list byte) fa xs : slice_ok t xs = true -> fa mod e_align t = 0 ->
   dec_ref t (fa + HEADER_SIZE + lenN q) (enc_aligned t (HEADER_SIZE + lenN q) xs) = DOk (SBorrowed xs).
 Proof.
   intros H Hfa. unfold dec_ref. rewrite decode_ref_aligned by exact H.
